@@ -75,9 +75,26 @@ CLAIMED = {
               "load/str/reload/str on the real code and on the model over the C03 corpus + hard cases.",
               "trusted: Lean kernel; model ZCV/Model/Schemaless.lean tied by correspondence (tree and str() output compared exactly).",
               "Lean 4 proof (value round trip) + round-trip exploration with model correspondence", "§7 C17"),
+    "C18": _c("Theorems C18_isPath_spec (the generated _pathsep_rx as isPath uses it = 'a scheme of >= 2 characters precedes the first colon', "
+              "all strings), C18_urlnormalize_form / _idempotent / _fixed. Exhaustive strings through isPath/urlnormalize/urljoin/urldefrag; "
+              "real scratch trees with decoys, four ways of naming the top resource, every cwd, reused loaders.",
+              "trusted: Lean kernel; extract.py; regex semantics; urllib.parse/pathname2url and the OS (explored, not proved).",
+              "Lean 4 proof (URL algebra) + exhaustive correspondence + scratch-tree exploration", "§7 C18"),
+    "C19": _c("Theorems C19_all_closed / C19_open_close_count over a model of the `with openResource` discipline for every resource graph and "
+              "every fault set; real traces (tracking Resource class, wrapped urlopen) compared with the model's for include trees x every "
+              "single failure point; schema graphs and %import by direct oracle.",
+              "trusted: Lean kernel; the hand-written model ZCV/Model/Resources.lean tied by trace correspondence; in-process instrumentation of urlopen/Resource.",
+              "Lean 4 proof (well-bracketed traces for all graphs/faults) + fault enumeration with trace correspondence", "§7 C19"),
+    "C20": _c("Theorems C20_level_spec (generated table + bounds = documented function, all strings), C20_level_range, "
+              "C20_std_stream_options_refused, C20_rotation_requires_old_files, C20_closeFiles_closes_all_registered. Exploration of the real "
+              "component: level spellings, logfile option matrix vs model, produced loggers, factory idempotence, format strings of four "
+              "styles (accepted => buildable and formats), registry operation sequences vs model.",
+              "trusted: Lean kernel; extract.py; models ZCV/Model/Logger.lean tied by correspondence; rendering by logging/str.format/string.Template, streams, files, weakref timing are outside the model.",
+              "Lean 4 proof (decision logic) + exploration of the real component with model correspondence", "§7 C20"),
 }
 
-NOT_YET = {}
+NOT_YET = {"C10": "check built (rule-violating edits with rule-based oracle, digest vs expected elaboration); its Lean model of the schema loader (elab) is being validated - claimed once merged",
+           "C11": "check built (composition vs expansion, real vs real); its Lean theorems depend on the elab model - claimed once merged"}
 
 
 def main():
